@@ -125,6 +125,40 @@ pub trait Grp: Sized + Send + Sync + 'static {
     /// full group order n = h * r
     fn order() -> Z;
     fn small_primes() -> Vec<(u64, u32)>;
+    /// crate decoding of a byte string of the right length (Err(String): panic or wrong size())
+    fn decode_bytes(compressed: bool, bytes: &[u8], checked: bool) -> Result<Result<Self::Aff, pairing_plus::GroupDecodingError>, String>;
+    /// crate encoding through CurveAffine::into_compressed / into_uncompressed
+    fn encode_aff(a: &Self::Aff, compressed: bool) -> Result<Vec<u8>, String>;
+}
+
+macro_rules! codec_impl {
+    ($comp:ty, $uncomp:ty) => {
+        fn decode_bytes(compressed: bool, bytes: &[u8], checked: bool) -> Result<Result<Self::Aff, pairing_plus::GroupDecodingError>, String> {
+            use pairing_plus::EncodedPoint;
+            macro_rules! go {
+                ($t:ty) => {{
+                    let mut e = <$t>::empty();
+                    if e.as_ref().len() != bytes.len() || <$t>::size() != bytes.len() {
+                        return Err(format!("size()/empty() give {} / {} bytes but the format has {}", <$t>::size(), e.as_ref().len(), bytes.len()));
+                    }
+                    e.as_mut().copy_from_slice(bytes);
+                    crate::engine::cr(if checked { "into_affine" } else { "into_affine_unchecked" }, || if checked { e.into_affine() } else { e.into_affine_unchecked() })
+                }};
+            }
+            if compressed {
+                go!($comp)
+            } else {
+                go!($uncomp)
+            }
+        }
+        fn encode_aff(a: &Self::Aff, compressed: bool) -> Result<Vec<u8>, String> {
+            if compressed {
+                crate::engine::cr("into_compressed", || a.into_compressed().as_ref().to_vec())
+            } else {
+                crate::engine::cr("into_uncompressed", || a.into_uncompressed().as_ref().to_vec())
+            }
+        }
+    };
 }
 
 pub struct G1m;
@@ -160,6 +194,7 @@ impl Grp for G1m {
     fn small_primes() -> Vec<(u64, u32)> {
         refmodel::curve::H1_PRIMES.to_vec()
     }
+    codec_impl!(cr::G1Compressed, cr::G1Uncompressed);
 }
 
 impl Grp for G2m {
@@ -192,6 +227,7 @@ impl Grp for G2m {
     fn small_primes() -> Vec<(u64, u32)> {
         refmodel::curve::H2_SMALL_PRIMES.to_vec()
     }
+    codec_impl!(cr::G2Compressed, cr::G2Uncompressed);
 }
 
 /// model point -> crate affine (canonical identity for Inf)
